@@ -419,7 +419,9 @@ Definition style_ok (o : option str) : bool :=
 Definition part_ok (p : part) : bool :=
   nonempty (part_name p) &&
   match part_element p, part_type p with
-  | Some e, None => match resolve_qname (part_ns p) e with Some (u, l) => uri_ok u | None => false end
+  | Some e, None => match resolve_qname (part_ns p) e with
+                    | Some (u, l) => uri_ok u && negb (str_eqb u XSD_NS)   (* no global element lives in the XSD namespace *)
+                    | None => false end
   | None, Some t => match resolve_qname (part_ns p) t with Some (u, l) => uri_ok u | None => false end
   | _, _ => false
   end.
@@ -437,7 +439,10 @@ Definition b_msg_ok (d : definitions) (style : str) (bm : b_msg) (ptm : pt_msg) 
   match the_body bm, find_message d (ptm_ns ptm) (ptm_message ptm) with
   | Some (use, bodyns, parts), Some m =>
       ostr_eqb use (Some s_literal)
-      && (negb (str_eqb style s_rpc) || match bodyns with Some u => uri_ok u | None => false end)
+      && (negb (str_eqb style s_rpc)
+          || (match bodyns with Some u => uri_ok u | None => false end
+              (* the QName naming the message also resolves in the scope of the wsdl:message itself *)
+              && ostr_eqb (resolve_local d (msg_ns m) (ptm_message ptm)) (Some (msg_name m))))
       && match parts with
          | None => true
          | Some s => let names := split_ws xml_ws s in
@@ -450,7 +455,8 @@ Definition b_msg_ok (d : definitions) (style : str) (bm : b_msg) (ptm : pt_msg) 
            | SoapHeader msg prt use' =>
                ostr_eqb use' (Some s_literal) &&
                match find_message d (bm_ns bm) msg with
-               | Some hm => existsb (fun p => str_eqb (part_name p) prt && element_part p) (msg_parts hm)
+               | Some hm => existsb (fun p => str_eqb (part_name p) prt) (msg_parts hm)
+                            && forallb (fun p => negb (str_eqb (part_name p) prt) || element_part p) (msg_parts hm)
                | None => false
                end
            end) (bm_exts bm)
@@ -486,7 +492,7 @@ Definition binding_ok (d : definitions) (b : binding) : bool :=
   end.
 
 Definition port_ok (d : definitions) (p : port) : bool :=
-  is_some (port_address p) &&
+  match port_address p with Some a => nonempty a | None => false end &&
   match obind (resolve_local d (port_ns p) (port_binding p)) (find_by b_name (d_bindings d)) with
   | Some b => binding_ok d b
   | None => false
